@@ -22,7 +22,30 @@ def txt(rng):
 
 
 def hx(s):
-    return "".join("%04X" % ord(c) for c in s)
+    out = ""
+    for c in s:
+        o = ord(c)
+        if o > 0xFFFF:
+            o -= 0x10000
+            out += "%04X%04X" % (0xD800 + (o >> 10), 0xDC00 + (o & 1023))
+        else:
+            out += "%04X" % o
+    return out
+
+
+# numeric character references inside DTD literals (entity values, ATTLIST defaults): Spec = the referenced code point
+REF_CPS = [0x41, 0x7A, 0xE9, 0x20AC, 0xD7FF, 0xE000, 0xFFFD, 0x10000, 0x10001, 0x1F600, 0x2F600, 0xEFFFF, 0xF0000,
+           0xFFFFF, 0x100000, 0x10FFFD, 0x10FFFF]
+
+
+def charref(rng):
+    cp = rng.choice(REF_CPS)
+    if rng.random() < 0.5:
+        form = "&#%s%d;" % ("0" * rng.choice([0, 0, 2]), cp)
+    else:
+        h = "%x" % cp
+        form = "&#x%s%s;" % ("0" * rng.choice([0, 0, 3]), "".join(ch.upper() if rng.random() < 0.5 else ch for ch in h))
+    return ("c", cp, form)
 
 
 class Doc:
@@ -44,7 +67,9 @@ def gen(rng):
         parts = []
         for _ in range(rng.choice([1, 1, 2, 3])):
             k = rng.random()
-            if k < 0.55 or not names:
+            if k < 0.25:
+                parts.append(charref(rng))
+            elif k < 0.6 or not names:
                 parts.append(("t", txt(rng)))
             elif k < 0.8:
                 parts.append(("r", rng.choice(names)))
@@ -105,10 +130,10 @@ def gen(rng):
     def attr_safe(n, seen=()):
         if n in d.pe_declared_ents:
             return True
-        for k, v in d.ents[n]:
-            if k == "e":
+        for pt in d.ents[n]:
+            if pt[0] == "e":
                 return False
-            if k == "r" and not attr_safe(v):
+            if pt[0] == "r" and not attr_safe(pt[1]):
                 return False
         return True
     d.attr_safe = attr_safe
@@ -140,7 +165,7 @@ def gen(rng):
     if rng.random() < 0.4:
         a = nm(rng, "d")
         # only entities declared before the ATTLIST may be referenced in a default: the ATTLIST goes last
-        d.default = (a, parts(rng, rng.choice([1, 2]), True))
+        d.default = (a, parts(rng, rng.choice([1, 2]), True) + ([charref(rng)] if rng.random() < 0.5 else []))
         d.order.append(("attlist", a))
     if rng.random() < 0.5:
         d.order.insert(rng.randrange(len(d.order) + 1), ("element", d.root))
@@ -151,8 +176,11 @@ def gen(rng):
 
 def render_parts(ps):
     out = ""
-    for k, v in ps:
-        if k == "t":
+    for pt in ps:
+        k, v = pt[0], pt[1]
+        if k == "c":
+            out += pt[2]
+        elif k == "t":
             out += v
         elif k in ("r", "u"):
             out += "&" + v + ";"
@@ -203,8 +231,11 @@ def expected_fatal(d):
 def expand_text(d, ps):
     """attribute value: text only"""
     out = ""
-    for k, v in ps:
-        if k == "t":
+    for pt in ps:
+        k, v = pt[0], pt[1]
+        if k == "c":
+            out += chr(v)
+        elif k == "t":
             out += v
         elif k == "r":
             if v in d.ents:
@@ -216,8 +247,11 @@ def expand_text(d, ps):
 
 def expand_events(d, ps, out):
     """content: list of ('T', text) | ('S', name) | ('E', name); adjacent text merged later"""
-    for k, v in ps:
-        if k == "t":
+    for pt in ps:
+        k, v = pt[0], pt[1]
+        if k == "c":
+            out.append(("T", chr(v)))
+        elif k == "t":
             out.append(("T", v))
         elif k == "e":
             out.append(("S", v))
@@ -284,7 +318,124 @@ def mutants(rng):
         ("dtd-entity-ref-in-prolog", '<!DOCTYPE %s [<!ENTITY %s "%s">]>&%s;<%s/>' % (r, e, t, e, r)),
         ("dtd-entity-ref-in-epilog", '<!DOCTYPE %s [<!ENTITY %s "%s">]><%s/>&%s;' % (r, e, t, r, e)),
         ("dtd-charref-to-entity-markup-ok-but-unclosed", '<!DOCTYPE %s [<!ENTITY %s "&#60;b>">]><%s>&%s;</%s>' % (r, e, r, e, r)),
+        ("dtd-badcharref-entity", '<!DOCTYPE %s [<!ENTITY %s "a%sb">]><%s>&%s;</%s>' % (
+            r, e, rng.choice(["&#xFFFF;", "&#xFFFE;", "&#0;", "&#x110000;", "&#xD800;", "&#xDFFF;", "&#;", "&#x;", "&#1;",
+                              "&#x1F600", "&#X41;", "&#65536 ;", "&#1114112;"]), r, e, r)),
+        ("dtd-badcharref-default", '<!DOCTYPE %s [<!ATTLIST %s a CDATA "a%sb">]><%s/>' % (
+            r, r, rng.choice(["&#xFFFF;", "&#0;", "&#x110000;", "&#xD800;", "&#x;", "&#8;"]), r)),
         ("dtd-garbage-in-subset", '<!DOCTYPE %s [ x ]><%s/>' % (r, r)),
         ("dtd-element-in-subset", '<!DOCTYPE %s [ <b/> ]><%s/>' % (r, r)),
     ]
     return M
+
+
+# ---- external subset / external parameter entity with conditional sections (XML 1.0 section 3.4), served by the resolver
+def _ws(rng):
+    return rng.choice(["", "", " ", "\n", " \t"])
+
+
+def _ignore_junk(rng, depth, fake):
+    """contents of an IGNOREd section: anything but an unbalanced '<![' or ']]>'"""
+    out = ""
+    for _ in range(rng.choice([0, 1, 2, 4])):
+        k = rng.random()
+        if k < 0.25:
+            n = nm(rng, "i")
+            fake.append(n)
+            out += '<!ENTITY %s "ignored">' % n
+        elif k < 0.45:
+            out += rng.choice(["]", "]>", "] ]>", "x]", "<!", "<![x", "]] >", "'", '"', "%zz;", "&q;", "-->", "<a>"]).replace("<![x", "<! [x")
+        elif k < 0.65 and depth < 3:
+            out += "<![" + rng.choice(["", "IGNORE[", "INCLUDE[", " x ["]) + _ignore_junk(rng, depth + 1, fake) + "]" * rng.choice([2, 2, 3, 5]) + ">"
+        else:
+            out += txt(rng)
+    return out
+
+
+def _ext_items(rng, depth, declared, fake, kws):
+    out = ""
+    for _ in range(rng.choice([1, 2, 3, 4])):
+        k = rng.random()
+        if k < 0.3:
+            n = nm(rng, "x")
+            if n in declared or n in fake:
+                continue
+            v = txt(rng)
+            declared[n] = v
+            out += '<!ENTITY %s "%s">%s' % (n, v, _ws(rng))
+        elif k < 0.5 and depth < 3:
+            kw = rng.choice(["INCLUDE"] + [("%" + p + ";") for p, v in kws.items() if v == "INCLUDE"])
+            out += "<![" + _ws(rng) + kw + _ws(rng) + "[" + _ext_items(rng, depth + 1, declared, fake, kws) + "]]>" + _ws(rng)
+        elif k < 0.8:
+            kw = rng.choice(["IGNORE"] + [("%" + p + ";") for p, v in kws.items() if v == "IGNORE"])
+            # the closing delimiter is "]]>"; any further ']' in front of it belong to the ignored text
+            out += "<![" + _ws(rng) + kw + _ws(rng) + "[" + _ignore_junk(rng, depth + 1, fake) + "]" * rng.choice([2, 3, 3, 4, 5, 6]) + ">" + _ws(rng)
+        elif k < 0.9:
+            out += "<!--c ]]> <![ -->" + _ws(rng)
+        else:
+            out += "<?p ]]> ?>" + _ws(rng)
+    return out
+
+
+def gen_ext(rng):
+    """returns dict(text, res{sysid: bytes}, fatal False, events, kind)"""
+    root = nm(rng, "r")
+    declared, fake = {}, []
+    kws = {}
+    head = ""
+    if rng.random() < 0.4:
+        head += "<?xml version='1.0' encoding='UTF-8'?>"
+    for _ in range(rng.choice([0, 1, 2])):
+        p = nm(rng, "k")
+        if p not in kws:
+            kws[p] = rng.choice(["INCLUDE", "IGNORE"])
+            head += '<!ENTITY %% %s "%s">\n' % (p, kws[p] if rng.random() < 0.7 else " " + kws[p] + " ")
+    body = _ext_items(rng, 0, declared, fake, kws)
+    ext = head + body
+    fake = [f for f in fake if f not in declared]
+    refs = list(declared.items()) + [(f, None) for f in fake[:3]]
+    rng.shuffle(refs)
+    content = ""
+    exp = ""
+    for n, v in refs:
+        t = txt(rng).strip() or "t"
+        content += t + "&" + n + ";"
+        exp += t + (v if v is not None else "")
+    if not content:
+        content = exp = "t"
+    how = rng.choice(["extsubset", "extsubset+int", "extpe"])
+    if how == "extsubset":
+        doc = '<!DOCTYPE %s SYSTEM "s.dtd"><%s>%s</%s>' % (root, root, content, root)
+        res = {"s.dtd": ext}
+    elif how == "extsubset+int":
+        doc = '<!DOCTYPE %s SYSTEM "sub/s.dtd" [<!--int-->]><%s>%s</%s>' % (root, root, content, root)
+        res = {"s.dtd": ext}
+    else:
+        doc = '<!DOCTYPE %s [<!ENTITY %% ext SYSTEM "p.ent"> %%ext; ]><%s>%s</%s>' % (root, root, content, root)
+        res = {"p.ent": ext}
+    ev = "S%s T%s E%s" % (hx(root), hx(exp), hx(root))
+    return {"text": doc, "res": res, "fatal": False, "events": ev, "kind": "ext/" + how}
+
+
+def ext_mutants(rng):
+    r = nm(rng, "r")
+    main = '<!DOCTYPE %s SYSTEM "s.dtd"><%s/>' % (r, r)
+    E = [
+        ("cond-unterminated-ignore", "<![IGNORE[ x ]>"),
+        ("cond-unterminated-ignore2", "<![IGNORE[ x ]] >"),
+        ("cond-ignore-nested-unclosed", "<![IGNORE[ <![ x ]]>"),
+        ("cond-unterminated-include", '<![INCLUDE[ <!ENTITY a "b"> ]>'),
+        ("cond-include-eof", '<![INCLUDE[ <!ENTITY a "b">'),
+        ("cond-bad-keyword", "<![FOO[ ]]>"),
+        ("cond-lowercase-keyword", "<![ignore[ ]]>"),
+        ("cond-stray-close", '<!ENTITY a "b"> ]]>'),
+        ("cond-include-extra-bracket", '<![INCLUDE[ <!ENTITY a "b"> ]]]>'),
+        ("cond-missing-bracket", "<![IGNORE x ]]>"),
+        ("cond-pe-keyword-garbage", '<!ENTITY %% k "MAYBE"><![%k;[ ]]>'.replace("%%", "%")),
+        ("cond-text-in-include", "<![INCLUDE[ text ]]>"),
+    ]
+    out = [(n, main, {"s.dtd": e}) for n, e in E]
+    out.append(("cond-in-internal-subset", '<!DOCTYPE %s [<![IGNORE[ x ]]>]><%s/>' % (r, r), {}))
+    out.append(("cond-include-in-internal-subset", '<!DOCTYPE %s [<![INCLUDE[ <!ENTITY a "b"> ]]>]><%s/>' % (r, r), {}))
+    out.append(("cond-extpe-unterminated", '<!DOCTYPE %s [<!ENTITY %% e SYSTEM "p.ent"> %%e; ]><%s/>' % (r, r), {"p.ent": "<![IGNORE[ x ]>"}))
+    return out
